@@ -29,10 +29,13 @@ GEN_OBLIGATIONS = [
 RULE = ("policy documents with 1-5 statements (Statement a single object or a list), each Effect allow/deny in random letter case "
         "(a few documents carry one invalid effect), Principal / NotPrincipal of every shape (absent, null, string, list, object keyed by "
         "AWS/CanonicalUser/Federated/Service in random key order with string or list values, mixed), principals distinct per statement "
-        "with occasional deliberate reuse, function objects inside lists; whitelists are lists drawn from the document's own principals, "
+        "with occasional deliberate reuse, function objects inside lists; about 4 statements in 5 carry Resource and/or NotResource in every "
+        "shape (null, string, '*', list of 0-4 ARNs with function-object members, a function object as the whole element), resources distinct "
+        "per statement with deliberate reuse across statements; whitelists are lists drawn from the document's own principals, "
         "case-swapped / truncated variants and unrelated strings; patterns are globs or literal prefixes derived from the document's own "
-        "principals / actions.  non-trivial = the case holds a Deny statement next to an Allow one, or an effect not spelled canonically, "
-        "or an object-shaped principal, or both Principal and NotPrincipal; distinct by hash of (surface, input).")
+        "principals / actions / resources.  non-trivial = the case holds a Deny statement next to an Allow one, or an effect not spelled "
+        "canonically, or an object-shaped principal, or both Principal and NotPrincipal (resource surfaces: the statement / document carries a "
+        "Resource or NotResource; statements_with: additionally a Deny statement with resources); distinct by hash of (surface, input).")
 ASSUMPTIONS = [
     "whitelists are lists of strings (a str whitelist makes `in` a substring test; the property quantifies over whitelists as collections)",
     "Pattern arguments are restricted to three families whose `.match` is modelled exactly: regex_from_cf_string(glob) (glob_ci, tied by C08), "
@@ -43,7 +46,12 @@ ASSUMPTIONS = [
     "str.capitalize() is modelled on ASCII; extra_checks verifies on every run, over all of Unicode, that no non-ASCII code point title-cases "
     "into a prefix of, or lower-cases into a substring of, 'Allow'/'Deny', so the ASCII model decides the validator for every string",
     "Effect is a literal string (a function object as Effect is outside the property: the model answers EUndefined); statements carry only the "
-    "keys Sid, Effect, Principal, NotPrincipal, Action, NotAction",
+    "keys Sid, Effect, Principal, NotPrincipal, Action, NotAction, Resource, NotResource (no Condition)",
+    "Resource / NotResource are null, a string, a list of strings and function objects, or ONE function object as the whole element (stored by "
+    "model_validate as a FunctionDict, which get_resource_list neither extends nor appends: the model follows the library there, see "
+    "C16_ex_resource_function_objects); Action / NotAction as a whole function object stay outside the domain (EUndefined)",
+    "get_iam_actions is compared, like get_allowed_actions, for statements with string Action patterns and no NotAction; the theorems "
+    "C16_iam_actions* hold for every expansion function",
     "function objects ({'Ref': ..}, {'Fn::Sub': ..}, ...) are generated only as MEMBERS of principal / action lists (kept by get_principal_list, "
     "never reported by the string queries).  A function object as the whole Principal element, or as the value of a Principal object field, is "
     "outside the shapes the property names: the model answers EUndefined (counted, not compared); see the report for what the code does there",
@@ -81,6 +89,8 @@ class Fresh:
         self.rng = rng
         self.n = 0
         self.used = []
+        self.nres = 0
+        self.used_res = []
 
     def principal(self, field=None):
         rng = self.rng
@@ -102,6 +112,22 @@ class Fresh:
             ])
         self.used.append(p)
         return p
+
+    def resource(self):
+        """Resources distinct per statement, reused now and then (so the same ARN sits under an Allow and a Deny statement)."""
+        rng = self.rng
+        if self.used_res and rng.random() < 0.15:
+            return rng.choice(self.used_res)
+        self.nres += 1
+        k = self.nres
+        acct = f"{rng.randrange(10**11, 10**12)}"
+        r = rng.choice([
+            f"arn:aws:s3:::bucket{k}", f"arn:aws:s3:::bucket{k}/*", f"arn:aws:s3:::Bucket{k}/Prefix/*", f"arn:aws:iam::{acct}:role/r{k}",
+            f"arn:aws:sqs:eu-west-1:{acct}:queue{k}", f"arn:aws:kms:*:{acct}:key/*", f"arn:aws:lambda:us-east-1:{acct}:function:F{k}:?",
+            f"ARN:AWS:S3:::UPPER{k}", f"res{k} (x+y)[z]", f"資{k}", f"*{k}", f"arn:aws:dynamodb:*:*:table/t{k}",
+        ])
+        self.used_res.append(r)
+        return r
 
 
 def gen_str_or_list(rng, mk, allow_fn=True):
@@ -137,6 +163,21 @@ def gen_principal_elem(rng, fresh, first_star=False):
         else:
             d[k] = gen_str_or_list(rng, lambda k=k: fresh.principal(k))
     return d
+
+
+def gen_resource_elem(rng, fresh):
+    """Every shape of Resource / NotResource: null, '*', string, function object as the whole element, list (with function objects)."""
+    r = rng.random()
+    if r < 0.04:
+        return None
+    if r < 0.14:
+        return "*"
+    if r < 0.40:
+        return fresh.resource()
+    if r < 0.50:
+        return dict(rng.choice(FN_OBJECTS))
+    n = rng.choice([0, 1, 1, 2, 2, 3, 4])
+    return [dict(rng.choice(FN_OBJECTS)) if rng.random() < 0.15 else fresh.resource() for _ in range(n)]
 
 
 def gen_action_pattern(rng, cat):
@@ -188,6 +229,14 @@ def gen_statement(rng, fresh, cat, idx, plain_actions, effect=None):
         elif r < 0.9:
             st.append(("Action", gen_str_or_list(rng, mk)))
             st.append(("NotAction", gen_str_or_list(rng, mk)))
+    r = rng.random()
+    if r < 0.58:
+        st.append(("Resource", gen_resource_elem(rng, fresh)))
+    elif r < 0.70:
+        st.append(("NotResource", gen_resource_elem(rng, fresh)))
+    elif r < 0.82:
+        st.append(("Resource", gen_resource_elem(rng, fresh)))
+        st.append(("NotResource", gen_resource_elem(rng, fresh)))
     rng.shuffle(st)
     return dict(st)
 
@@ -232,6 +281,22 @@ def doc_actions(doc):
     for s in doc_statements(doc):
         if isinstance(s, dict):
             out += elem_strings(s.get("Action")) + elem_strings(s.get("NotAction"))
+    return out
+
+
+def stmt_resources(s):
+    out = []
+    if isinstance(s, dict):
+        for key in ("Resource", "NotResource"):
+            e = s.get(key)
+            out += [e] if isinstance(e, str) else [y for y in e if isinstance(y, str)] if isinstance(e, list) else []
+    return out
+
+
+def doc_resources(doc):
+    out = []
+    for s in doc_statements(doc):
+        out += stmt_resources(s)
     return out
 
 
@@ -361,6 +426,18 @@ def stmt_tags(s):
         t.add("both")
     if "NotAction" in s:
         t.add("notaction")
+    for key, pre in (("Resource", "r-"), ("NotResource", "nr-")):
+        if key in s:
+            e = s[key]
+            t.add(pre + elem_shape(e))
+            if isinstance(e, list) and any(isinstance(x, dict) for x in e):
+                t.add("fn-in-reslist")
+    if "Resource" in s and "NotResource" in s:
+        t.add("both-resources")
+    if any(k in s for k in ("Resource", "NotResource")):
+        t.add("has-resource")
+        if "deny" in t:
+            t.add("deny-with-resource")
     return t
 
 
@@ -501,6 +578,63 @@ class PrincipalsWith(C16Surface):
         return core.model_res(rn.call(1605, [x["stmt"], x["pat"]["kind"], x["pat"]["text"]]))
 
 
+class ResourceList(C16Surface):
+    name = "Statement.get_resource_list()"
+    theorem = "C16_resource_list_complete / C16_resource_list_order / C16_resource_shapes / C16_resource_list_of_raw"
+
+    def impl(self, x):
+        def run():
+            st = mk_statement(x["stmt"])
+            first = plain(st.get_resource_list())
+            st.resources_with(re.compile(""))           # another query on the SAME statement in between
+            st.get_resource_list().append("intruder")    # the list handed out must not be the statement's own
+            again = plain(st.get_resource_list())
+            return again if again == first else {"unstable-on-the-same-statement": [first, again]}
+        return core.impl_call(run)
+
+    def model(self, rn, x):
+        return core.model_res(rn.call(1606, [x["stmt"]]))
+
+    def nontrivial(self, x, i, m):
+        return "has-resource" in self.tags(x)
+
+
+class ResourcesWith(C16Surface):
+    name = "Statement.resources_with(pattern)"
+    theorem = "C16_resources_with / C16_resources_with_order / C16_resources_with_independent"
+    frozen = frozenset({"pat"})
+
+    def impl(self, x):
+        return core.impl_call(lambda: mk_statement(x["stmt"]).resources_with(compile_pattern(x["pat"])))
+
+    def model(self, rn, x):
+        return core.model_res(rn.call(1607, [x["stmt"], x["pat"]["kind"], x["pat"]["text"]]))
+
+    def nontrivial(self, x, i, m):
+        return "has-resource" in self.tags(x)
+
+
+class ActionListFlags(C16Surface):
+    name = "Statement.get_action_list(include_action, include_not_action)"
+    theorem = "C16_action_list_flags / C16_action_list_flag_cases"
+
+    def impl(self, x):
+        def run():
+            st = mk_statement(x["stmt"])
+            ia, ina = x["flags"]
+            r = plain(st.get_action_list(include_action=ia, include_not_action=ina))
+            if ia and ina and plain(st.get_action_list()) != r:
+                return {"default-flags-differ-from-true-true": r}
+            return r
+        return core.impl_call(run)
+
+    def model(self, rn, x):
+        return core.model_res(rn.call(1608, [x["stmt"], bool(x["flags"][0]), bool(x["flags"][1])]))
+
+    def nontrivial(self, x, i, m):
+        return "Action" in x["stmt"] or "NotAction" in x["stmt"]
+
+
 class DocEffects(C16Surface):
     name = "[s.Effect for s in PolicyDocument.statement_as_list()]"
     theorem = "C16_single_vs_list / C16_statement_validated"
@@ -586,6 +720,78 @@ class DocAllowedActions(C16Surface):
         return interesting(self.tags(x)) and m[0] == "OK" and len(m[1]) > 0
 
 
+def statements_with_positions(pd, pat):
+    """[[Sid of each returned statement], [its position in the document]]; the statements are identified by identity."""
+    all_s = pd.statement_as_list()
+    r = pd.statements_with(pat)
+    pos = [next(i for i, s in enumerate(all_s) if s is y) for y in r]
+    return [[plain(s.Sid) for s in r], pos]
+
+
+class DocStatementsWith(C16Surface):
+    name = "PolicyDocument.statements_with(pattern): Sids and positions"
+    theorem = "C16_statements_with / C16_statements_with_order / C16_statements_with_positions / C16_deny_visible_to_statements_with"
+    level = "doc"
+    frozen = frozenset({"pat"})
+
+    def impl(self, x):
+        return core.impl_call(lambda: statements_with_positions(mk_document(x["doc"]), compile_pattern(x["pat"])))
+
+    def model(self, rn, x):
+        return core.model_res(rn.call(1615, [x["doc"], x["pat"]["kind"], x["pat"]["text"]]))
+
+    def nontrivial(self, x, i, m):
+        return "has-resource" in self.tags(x)
+
+
+def swap_effect(e):
+    lo = e.lower()
+    return "Deny" if lo == "allow" else "allow" if lo == "deny" else e
+
+
+class EffectSwapped(C16Surface):
+    """Metamorphic reading of C16_statements_with_independent on the implementation itself: the API's answer on the document must equal
+    the MODEL's answer on the document with every Allow turned into Deny and every Deny into Allow."""
+    name = "statements_with vs the document with every Effect swapped"
+    theorem = "C16_statements_with_independent / C16_statements_with_insert"
+    level = "doc"
+    frozen = frozenset({"pat"})
+
+    def impl(self, x):
+        return core.impl_call(lambda: statements_with_positions(mk_document(x["doc"]), compile_pattern(x["pat"])))
+
+    def model(self, rn, x):
+        sts = doc_statements(x["doc"])
+        if not all(isinstance(s, dict) and isinstance(s.get("Effect"), str) and s["Effect"].lower() in ("allow", "deny") for s in sts):
+            return ("EXC", "EUndefined", "")
+        swapped = {"Statement": [dict(s, Effect=swap_effect(s["Effect"])) for s in sts]}
+        return core.model_res(rn.call(1615, [swapped, x["pat"]["kind"], x["pat"]["text"]]))
+
+    def nontrivial(self, x, i, m):
+        return "deny-with-resource" in self.tags(x)
+
+
+class DocIamActions(C16Surface):
+    name = "PolicyDocument.get_iam_actions(difference)"
+    theorem = "C16_iam_actions / C16_iam_actions_difference / C16_iam_actions_canonical / C16_iam_actions_sees_deny"
+    level = "doc"
+
+    def impl(self, x):
+        def f():
+            pd = mk_document(x["doc"])
+            r = pd.get_iam_actions(difference=x["difference"])
+            if not x["difference"] and pd.get_iam_actions() != r:
+                return {"default-differs-from-difference-False": r}
+            return r
+        return core.impl_call(f)
+
+    def model(self, rn, x):
+        return core.model_res(rn.call(1616, [x["doc"], bool(x["difference"])], sample=False))
+
+    def nontrivial(self, x, i, m):
+        return m[0] == "OK" and len(m[1]) > 0 and any("iam:" in a.lower() for a in doc_actions(x["doc"]))
+
+
 class DenyRemoved(C16Surface):
     """Metamorphic reading of C16_deny_invisible on the implementation itself: the API's answers on the document must equal the
     MODEL's answers on the document with every Deny statement deleted."""
@@ -618,11 +824,75 @@ class DenyRemoved(C16Surface):
         return "deny" in self.tags(x)
 
 
+class DocEdited(C16Surface):
+    """history: query a document, EDIT IT (another Statement list assigned / statements appended / every Effect flipped / a
+    model_copy with another Statement list), query again: the second answers must describe the document as it is now
+    (added after seeded change C16-r3m2: the Allow statements remembered per document object in a cached_property)"""
+    name = "query; edit the PolicyDocument (assign / append / flip Effect / model_copy); query again"
+    theorem = "C16_allow_only_* (the queries are functions of the document's current statements)"
+    level = "doc"
+    frozen = frozenset({"pat", "edit"})
+
+    @staticmethod
+    def edited_raw(x):
+        a, b = doc_statements(x["doc"]), doc_statements(x["doc2"])
+        if x["edit"] in ("assign", "copy"):
+            return {"Statement": b}
+        if x["edit"] == "append":
+            return {"Statement": a + b}
+        return {"Statement": [dict(st, Effect=swap_effect(st["Effect"])) for st in a]}
+
+    def impl(self, x):
+        def queries(pd):
+            pat = compile_pattern(x["pat"])
+            return [as_set_list(pd.non_whitelisted_allowed_principals(list(x["wl"]))), as_set_list(pd.allowed_principals_with(pat)),
+                    [plain(st.Sid) for st in pd.allowed_actions_with(pat)]]
+
+        def f():
+            pd = mk_document({"Statement": doc_statements(x["doc"])})
+            queries(pd)
+            other = mk_document({"Statement": doc_statements(x["doc2"])})
+            if x["edit"] == "assign":
+                pd.Statement = other.Statement
+            elif x["edit"] == "append":
+                pd.Statement.extend(other.Statement)
+            elif x["edit"] == "copy":
+                pd = pd.model_copy(update={"Statement": other.Statement})
+            else:
+                for st in pd.Statement:
+                    st.Effect = swap_effect(st.Effect)
+            return queries(pd)
+        return core.impl_call(f)
+
+    def model(self, rn, x):
+        sts = doc_statements(x["doc"]) + doc_statements(x["doc2"])
+        if not all(isinstance(st, dict) and isinstance(st.get("Effect"), str) and st["Effect"].lower() in ("allow", "deny") for st in sts):
+            return ("EXC", "EUndefined", "")
+        raw = self.edited_raw(x)
+        out = []
+        for r in (rn.call(1612, [raw, x["wl"]]), rn.call(1611, [raw, x["pat"]["kind"], x["pat"]["text"]]),
+                  rn.call(1613, [raw, x["pat"]["kind"], x["pat"]["text"]])):
+            r = core.model_res(r)
+            if r[0] != "OK":
+                return r
+            out.append(r[1])
+        return ("OK", out)
+
+    def tags(self, x):
+        return doc_tags(x["doc"]) | doc_tags(x["doc2"]) | {"edited:" + x["edit"]}
+
+    def nontrivial(self, x, i, m):
+        return True
+
+
 EFFECT, STMT_EFFECT, PLIST, NONWL, PWITH = EffectLiteral(), StmtEffect(), PrincipalList(), NonWhitelisted(), PrincipalsWith()
 DOC_EFFECTS, DOC_PWITH, DOC_NONWL, DOC_AWITH, DOC_ACTIONS, DENY_REMOVED = (
     DocEffects(), DocPrincipalsWith(), DocNonWhitelisted(), DocActionsWith(), DocAllowedActions(), DenyRemoved())
+RLIST, RWITH, ALIST_FLAGS, DOC_SWITH, EFFECT_SWAPPED, DOC_IAM = (
+    ResourceList(), ResourcesWith(), ActionListFlags(), DocStatementsWith(), EffectSwapped(), DocIamActions())
+DOC_EDITED = DocEdited()
 SURFACES = {s.name: s for s in (EFFECT, STMT_EFFECT, PLIST, NONWL, PWITH, DOC_EFFECTS, DOC_PWITH, DOC_NONWL, DOC_AWITH,
-                                DOC_ACTIONS, DENY_REMOVED)}
+                                DOC_ACTIONS, DENY_REMOVED, RLIST, RWITH, ALIST_FLAGS, DOC_SWITH, EFFECT_SWAPPED, DOC_IAM, DOC_EDITED)}
 
 
 def prepare(rn):
@@ -661,13 +931,16 @@ def undefined_stream(rng, fresh):
     yield PLIST, {"stmt": {"Effect": "Allow", "Principal": dict(rng.choice(FN_OBJECTS))}}
     yield PLIST, {"stmt": {"Effect": "Allow", "Principal": {"AWS": dict(rng.choice(FN_OBJECTS)), "Service": fresh.principal("Service")}}}
     yield STMT_EFFECT, {"stmt": {"Effect": {"Ref": "E"}, "Principal": fresh.principal()}}
+    yield ALIST_FLAGS, {"stmt": {"Effect": "Allow", "Action": dict(rng.choice(FN_OBJECTS)), "Resource": "*"}, "flags": [True, True]}
+    yield RLIST, {"stmt": {"Effect": "Allow", "Resource": {"AWS": fresh.resource(), "Service": "x"}}}
 
 
 def cases(rng, tier, shard, nshards):
     from pycfmodel.cloudformation_actions import CLOUDFORMATION_ACTIONS as cat
     if shard == 0:
         yield from corpus()
-    n_docs = {"quick": 1000, "thorough": 10000}[tier]
+    n_docs = {"quick": 800, "thorough": 10000}[tier]
+    iam_mix = [a for a in cat if a.lower().startswith("iam:")] + rng.sample(list(cat), 150)   # about half of the patterns name IAM actions
     for k in range(n_docs):
         for _ in range(3):
             yield EFFECT, {"s": gen_effect_string(rng)}
@@ -678,14 +951,27 @@ def cases(rng, tier, shard, nshards):
         yield DOC_PWITH, {"doc": doc, "pat": gen_pattern(rng, ps)}
         yield DOC_AWITH, {"doc": doc, "pat": gen_pattern(rng, doc_actions(doc))}
         yield DENY_REMOVED, {"doc": doc, "wl": gen_whitelist(rng, ps), "pat": gen_pattern(rng, ps)}
+        if k % 3 == 0:
+            doc2 = gen_doc(rng, cat)
+            ps2 = ps + doc_principals(doc2)
+            yield DOC_EDITED, {"doc": doc, "doc2": doc2, "wl": gen_whitelist(rng, ps2), "pat": gen_pattern(rng, ps2),
+                               "edit": ["assign", "append", "flip", "copy"][(k // 3) % 4]}
+        rs = doc_resources(doc)
+        yield DOC_SWITH, {"doc": doc, "pat": gen_pattern(rng, rs)}
+        yield EFFECT_SWAPPED, {"doc": doc, "pat": gen_pattern(rng, rs)}
         for s in doc_statements(doc):
             sp = elem_strings(s.get("Principal")) + elem_strings(s.get("NotPrincipal"))
             yield STMT_EFFECT, {"stmt": s}
             yield PLIST, {"stmt": s}
             yield NONWL, {"stmt": s, "wl": gen_whitelist(rng, sp)}
             yield PWITH, {"stmt": s, "pat": gen_pattern(rng, sp)}
+            yield RLIST, {"stmt": s}
+            yield RWITH, {"stmt": s, "pat": gen_pattern(rng, stmt_resources(s))}
+            yield ALIST_FLAGS, {"stmt": s, "flags": [rng.random() < 0.5, rng.random() < 0.5]}
         if k % 12 == 0:   # the model sweeps the whole catalogue once per Action pattern (~20 ms each)
             yield DOC_ACTIONS, {"doc": gen_doc(rng, cat, plain_actions=True)}
+        if k % 40 == 6:   # same cost per Action pattern, plus one more sweep for the difference
+            yield DOC_IAM, {"doc": gen_doc(rng, iam_mix, plain_actions=True), "difference": (k // 40) % 2 == 1}
         if k % 100 == 0:
             yield from undefined_stream(rng, Fresh(rng))
 
